@@ -349,7 +349,7 @@ impl World {
                     Some(t) if !t.is_empty() => t.to_string(),
                     _ => crate::drive::docs().into_iter().find(|(n, _)| Some(n.as_str()) == a["doc"].as_str().or(a["k"].as_str())).map(|(_, t)| t)?,
                 };
-                let strict = a["strict"].as_bool().unwrap_or(true);
+                let strict = a["strict"].as_bool().unwrap_or(a["ver"].as_str() != Some("lenient"));
                 Box::new(move || Out::Load(m.load_buffer(text.as_bytes(), name, strict)))
             }
             "Duplicate" => {
